@@ -75,12 +75,30 @@ func snapshot(dir string) []string {
 	return out
 }
 
+// buildItems builds a programmatic tree from items (Add merges equally named siblings, as the spec's Trie).
+func buildItems(items []wproto.Item) *gtree.Node {
+	var chain []*gtree.Node
+	var root *gtree.Node
+	for _, it := range items {
+		if it.D == 1 {
+			root = gtree.NewRoot(it.N)
+			chain = []*gtree.Node{root}
+			continue
+		}
+		n := chain[it.D-2].Add(it.N)
+		chain = append(chain[:it.D-1], n)
+	}
+	return root
+}
+
 func handleReq(rq wproto.Req) (rp wproto.Rep) {
 	var buf bytes.Buffer
 	color.Output = &buf
 	opts := reqOpts(rq)
 	var jail string
-	if rq.Jail || rq.Op == "mkdir" || rq.Op == "verify" {
+	if rq.Target != "" {
+		opts = append(opts, gtree.WithTargetDir(rq.Target))
+	} else if rq.Jail || rq.Op == "mkdir" || rq.Op == "verify" {
 		var err error
 		jail, err = os.MkdirTemp("", "verif-jail-")
 		if err != nil {
@@ -90,22 +108,54 @@ func handleReq(rq wproto.Req) (rp wproto.Rep) {
 		os.Mkdir(filepath.Join(jail, "t"), 0o755)
 		opts = append(opts, gtree.WithTargetDir(filepath.Join(jail, "t")))
 	}
+	var mu sync.Mutex // massive mode calls back from several goroutines
+	cb := func(wn *gtree.WalkerNode) error {
+		mu.Lock()
+		rp.Walk = append(rp.Walk, wn.Row())
+		mu.Unlock()
+		return nil
+	}
 	o := real.Guard(func() error {
-		switch rq.Op {
-		case "output":
-			return gtree.OutputFromMarkdown(&buf, strings.NewReader(rq.Doc), opts...)
-		case "walk":
-			var mu sync.Mutex // massive mode calls back from several goroutines
-			return gtree.WalkFromMarkdown(strings.NewReader(rq.Doc), func(wn *gtree.WalkerNode) error {
-				mu.Lock()
-				rp.Walk = append(rp.Walk, wn.Row())
-				mu.Unlock()
-				return nil
-			}, opts...)
-		case "mkdir":
-			return gtree.MkdirFromMarkdown(strings.NewReader(rq.Doc), opts...)
-		case "verify":
-			return gtree.VerifyFromMarkdown(strings.NewReader(rq.Doc), opts...)
+		if rq.Route == "root" {
+			root := buildItems(rq.Items)
+			switch {
+			case rq.Op == "output" && rq.Alias:
+				return gtree.OutputProgrammably(&buf, root, opts...)
+			case rq.Op == "output":
+				return gtree.OutputFromRoot(&buf, root, opts...)
+			case rq.Op == "walk" && rq.Alias:
+				return gtree.WalkProgrammably(root, cb, opts...)
+			case rq.Op == "walk":
+				return gtree.WalkFromRoot(root, cb, opts...)
+			case rq.Op == "mkdir" && rq.Alias:
+				return gtree.MkdirProgrammably(root, opts...)
+			case rq.Op == "mkdir":
+				return gtree.MkdirFromRoot(root, opts...)
+			case rq.Op == "verify" && rq.Alias:
+				return gtree.VerifyProgrammably(root, opts...)
+			case rq.Op == "verify":
+				return gtree.VerifyFromRoot(root, opts...)
+			}
+			return fmt.Errorf("harness: unknown op %q", rq.Op)
+		}
+		r := strings.NewReader(rq.Doc)
+		switch {
+		case rq.Op == "output" && rq.Alias:
+			return gtree.Output(&buf, r, opts...)
+		case rq.Op == "output":
+			return gtree.OutputFromMarkdown(&buf, r, opts...)
+		case rq.Op == "walk" && rq.Alias:
+			return gtree.Walk(r, cb, opts...)
+		case rq.Op == "walk":
+			return gtree.WalkFromMarkdown(r, cb, opts...)
+		case rq.Op == "mkdir" && rq.Alias:
+			return gtree.Mkdir(r, opts...)
+		case rq.Op == "mkdir":
+			return gtree.MkdirFromMarkdown(r, opts...)
+		case rq.Op == "verify" && rq.Alias:
+			return gtree.Verify(r, opts...)
+		case rq.Op == "verify":
+			return gtree.VerifyFromMarkdown(r, opts...)
 		}
 		return fmt.Errorf("harness: unknown op %q", rq.Op)
 	})
@@ -116,7 +166,7 @@ func handleReq(rq wproto.Req) (rp wproto.Rep) {
 	if jail != "" {
 		rp.Entries = snapshot(jail)
 	}
-	if rq.Massive && rp.Class != "hang" {
+	if rq.Leaks && rp.Class != "hang" {
 		leaks := real.SettledLeaks(150 * time.Millisecond)
 		rp.Leaked, rp.LeakSigs = len(leaks), leaks
 	}
